@@ -1,7 +1,7 @@
 """Per-format profiles: which model features the renderer can express, how to render, how the documentation places text."""
 from __future__ import annotations
 
-from vf.gen import ooxml
+from vf.gen import odf, ooxml
 
 FLOW_INLINE = {"run.multi", "run.tab", "run.break", "run.link"}
 
@@ -16,8 +16,26 @@ PROFILES = {
     "pptx": {
         "ext": "pptx", "render": lambda doc, **kw: ooxml.render_pptx(doc, **kw), "selfcheck": ooxml.wellformed,
         "features": {"run.multi", "run.tab", "run.break", "run.link", "run.field", "para.heading", "list.flat", "list.nested", "table.simple", "table.multi-para-cell", "table.empty-cell",
-                     "container.group", "unit.multi", "unit.empty", "excluded.speaker-notes", "excluded.header-footer"},
+                     "container.group", "unit.multi", "unit.empty", "excluded.speaker-notes", "excluded.header-footer", "excluded.comment"},
         "table_text_in_full_text": True, "unit_kind": "slide", "max_units": 4,
         "residue_ignore": r"\b\d{1,3}\b",  # slide-number placeholders are deliberately kept by the extractor (class M)
+    },
+    "odt": {
+        "ext": "odt", "render": lambda doc, **kw: odf.render_odt(doc, **kw), "selfcheck": odf.wellformed,
+        "features": FLOW_INLINE | {"run.ins", "run.del", "run.comment-ref", "run.note-ref", "run.field", "para.heading", "list.flat", "list.nested", "table.simple",
+                                   "table.multi-para-cell", "table.nested", "table.empty-cell", "table.header-rows", "container.section", "container.textbox",
+                                   "excluded.header-footer", "excluded.comment"},
+        "table_text_in_full_text": True, "unit_kind": "flow", "max_units": 1,
+    },
+    "odp": {
+        "ext": "odp", "render": lambda doc, **kw: odf.render_odp(doc, **kw), "selfcheck": odf.wellformed,
+        "features": FLOW_INLINE | {"para.heading", "list.flat", "list.nested", "table.simple", "table.multi-para-cell", "table.empty-cell", "table.header-rows", "container.group",
+                                   "container.custom-shape", "unit.multi", "unit.empty", "excluded.speaker-notes", "excluded.header-footer", "excluded.comment"},
+        "table_text_in_full_text": False, "unit_kind": "slide", "max_units": 4,
+    },
+    "odg": {
+        "ext": "odg", "render": lambda doc, **kw: odf.render_odg(doc, **kw), "selfcheck": odf.wellformed,
+        "features": FLOW_INLINE | {"list.flat", "list.nested", "table.simple", "container.group", "container.custom-shape", "unit.multi", "unit.empty"},
+        "table_text_in_full_text": True, "unit_kind": "page-merged", "max_units": 3,
     },
 }
